@@ -4,6 +4,11 @@ import json, os, sys
 ROOT = os.path.dirname(os.path.dirname(os.path.abspath(__file__)))
 
 CHECKS = {
+ "C15": ("exploration",
+         "property-based testing over generated fork/tick/settle histories driven through the real runtime (fork_strand, super_tick, SettlementService): prefix-equality and basis-pinning oracle at every fork, fault injection by invalid fork requests and by pre-binding the plan's plural id (rollback fingerprint oracle), lane isolation as a metamorphic relation (drop one lane class's submissions, compare the other lanes' hash chains), plan purity/determinism, reference slot-set classification of parent movement, per-decision slot-value oracles (import takes the strand's values, retained artifacts leave the root unchanged, no parent-written slot changes), parent replays from U0",
+         "One or two strands (incl. chains, AuthorOnly strands, support pins) are forked at generated ticks from generated histories and ticked interleaved with their parents by the ordinary scheduler; every strand is compared, planned and settled under both plural policies. Fork copies exactly the prefix and pins the recorded commit with fresh heads; invalid forks and failed settlements change nothing observable; neither lane class influences the other's per-tick roots, commit ids and patch digests; planning is pure and deterministic; clean suffixes on unmoved or disjointly moved parents are fully imported; imports give the parent the strand's values on the slots its ops wrote; conflict/plural entries leave the parent state unchanged and block later imports; no slot the parent wrote since the anchor changes value; the parent stays replayable to its live state.",
+         "Retries/restarts excluded from these scripts; port slots not compared; failure injection into settlement needs a plural decision in the plan.",
+         "DESIGN.md §4 C15"),
  "C16": ("exploration",
          "property-based testing over generated histories and generated request lists: before/after fingerprint oracle around every read, repeat-equality (determinism), reference ledger + replayed-state oracle for every successful reading, metamorphic relation 'later commits and forks do not change a historical reading', typed-refusal oracle for every invalid/unavailable request shape",
          "Observation and optic requests of every frame/projection/coordinate/aperture/budget shape are served twice against generated multi-worldline histories, then again after further commits and a fork: nothing observable in runtime, provenance or engine changes around a read; repeats are identical including the artifact hash and distinct artifacts never share one; resolved tick, commit id, state root, commit stamp, recorded outputs and query bytes equal the harness's commit-time ledger and the replayed state; historical readings are content-stable; invalid or unavailable requests get the documented typed refusal, never a reading; bounded readings respect their budget.",
